@@ -26,20 +26,43 @@ def check_pipeline_shape(rep, facts, rule):
         name_of = {id(c): nm for nm, c, a in triples}
         items_of = {id(c): a for nm, c, a in triples}
         n = max(n, len(chain))
+        from ..passorder import derived_from
         if chain:
+            if returned != chain[-1].result and returned is not None and derived_from(returned, chain[-1].result):
+                raise AnalysisError('assemble: the returned value is obtained from the result of {} through an expression that is not followed'.format(chain[-1].name))
             rep.check(returned == chain[-1].result, rule, 'compress={}: assemble returns the result of its last pass'.format(value),
                       lambda chain=chain: Finding(rule, 'assemble', chain[-1].node, 'the value returned by assemble is not the result of the last pass ({})'.format(chain[-1].name),
                                                   line=fn.lineno))
+        # a helper that is handed the item list and whose result is dropped: one that visibly changes the list in place edits the
+        # program behind the back of the layout; one that is not provably read-only is not understood (no verdict)
+        for c in list(chain):
+            if getattr(c, 'discarded', False):
+                chain.remove(c)
+                edits = in_place_edits(facts, c)
+                if edits:
+                    rep.fail(Finding(rule, 'assemble', c.node, 'the item list is changed in place outside the passes ({} in {}): directives are dropped, added or reordered behind the '
+                                     'back of the layout'.format(edits[0], c.name), line=getattr(c.node, 'lineno', fn.lineno)), instance='no in-place change of the item list in assemble')
+                else:
+                    rep.undecided('assemble: {} receives the item list, its result is dropped and it is not provably read-only'.format(c.name))
         prev = None
         for c in chain:
             if prev is not None:
                 ok = items_of[id(c)] == prev.result
+                if not ok and derived_from(items_of[id(c)], prev.result):
+                    # the previous result reaches this pass through a comprehension / call that is not followed: neither the
+                    # same list nor visibly another one
+                    rep.undecided('assemble: the list handed to {} is obtained from the result of {} through an expression that is not followed'.format(
+                        name_of[id(c)], name_of[id(prev)]))
+                    prev = c
+                    continue
                 rep.check(ok, rule, 'compress={}: {} consumes the list returned by {}'.format(value, name_of[id(c)], name_of[id(prev)]),
                           lambda c=c, prev=prev: Finding(rule, 'assemble', c.node, 'pass {} does not thread the item list (it receives {} instead of the result of {})'.format(
                               name_of[id(c)], items_of[id(c)][:2], name_of[id(prev)]), line=getattr(c.node, 'lineno', fn.lineno)))
             prev = c
         last = chain[-1] if chain else None
-        concat = last is not None and name_of[id(last)] == 'resolve_blobs'
+        if 'resolve_blobs' not in facts.funcs:
+            raise AnalysisError('anchor vanished: resolve_blobs')
+        concat = last is not None and (name_of[id(last)] == 'resolve_blobs' or last.named('resolve_blobs'))
         rep.check(concat, rule, 'compress={}: the last pass is the byte concatenation (resolve_blobs)'.format(value),
                   lambda last=last: Finding(rule, 'assemble', last.node if last else fn, 'the returned program is not the result of resolve_blobs on the final item list', line=fn.lineno))
     rep.count('pipeline steps', n)
@@ -76,13 +99,80 @@ def check_pipeline_shape(rep, facts, rule):
             if isinstance(st, ast.ListComp):
                 lc = st
                 g = lc.generators[0]
-                good = (len(lc.generators) == 1 and isinstance(g.target, ast.Name)
-                        and (unparse(lc.elt) == g.target.id or (isinstance(lc.elt, ast.Call) and len(lc.elt.args) >= 1
-                                                                and unparse(lc.elt.args[0]) == g.target.id)))
-                if not (isinstance(g.iter, ast.Name) and g.iter.id in stream_names(f)):
+                src = LR.in_order_source(g.iter)
+                while isinstance(src, ast.Call) and isinstance(src.func, ast.Name) and src.func.id in ('map', 'filter') and len(src.args) == 2 and not src.keywords:
+                    src = LR.in_order_source(src.args[1])          # map(f, S) / filter(f, S): an in-order map / filter of S itself
+                if not (isinstance(src, ast.Name) and src.id in stream_names(f)):
+                    if any(isinstance(x, ast.Name) and x.id in stream_names(f) for x in ast.walk(g.iter)):
+                        reorder = [x for x in ast.walk(g.iter) if (isinstance(x, ast.Call) and dotted(x.func) in ('reversed', 'sorted', 'set', 'frozenset')) or isinstance(x, ast.Slice)]
+                        if reorder:
+                            rep.fail(Finding(rule, f.name, st, 'a comprehension of the front end walks the stream out of order / in part: {}'.format(unparse(g.iter)[:60]), line=st.lineno))
+                        else:
+                            rep.undecided('{}: the comprehension `{}` runs over an expression of the line / token / item stream that is not followed'.format(f.name, unparse(st)[:60]))
                     continue      # not a comprehension over the line / token / item lists
-                rep.check(good, rule, 'comprehension `{}` maps / filters in order'.format(unparse(st)[:60]),
+                verdict = comprehension_in_order(lc, stream_names(f))
+                if verdict is None:
+                    rep.undecided('{}: the comprehension `{}` over the line / token / item stream is not understood as an in-order map / filter'.format(f.name, unparse(st)[:60]))
+                    continue
+                rep.check(verdict, rule, 'comprehension `{}` maps / filters in order'.format(unparse(st)[:60]),
                           lambda st=st, f=f: Finding(rule, f.name, st, 'a list comprehension of the front end does more than an in-order map/filter', line=st.lineno))
+
+
+def comprehension_in_order(lc, streams):
+    """Is `[E for x in S if C]` an in-order map / filter of S?  True: each result element is x itself, or a function applied to
+    x (x appearing exactly once among the arguments and the stream nowhere else), possibly bound by an assignment expression in
+    the filter (`[y for x in S if (y := f(x)) is not None]`).  False: the element does not depend on x at all (a positional
+    element of the stream, a constant).  None: anything else."""
+    if len(lc.generators) != 1 or lc.generators[0].is_async or not isinstance(lc.generators[0].target, ast.Name):
+        return None
+    g = lc.generators[0]
+    x = g.target.id
+    elt = lc.elt
+    walrus = {}
+    for c in g.ifs:
+        for n in ast.walk(c):
+            if isinstance(n, ast.NamedExpr) and isinstance(n.target, ast.Name):
+                walrus[n.target.id] = n.value
+    if isinstance(elt, ast.Name) and elt.id in walrus:
+        elt = walrus[elt.id]
+    mentions_stream = any(isinstance(n, ast.Name) and n.id in streams for n in ast.walk(elt)) or \
+        any(isinstance(n, ast.Name) and n.id in streams for c in g.ifs for n in ast.walk(c))
+    uses = [n for n in ast.walk(elt) if isinstance(n, ast.Name) and n.id == x]
+    if isinstance(elt, ast.Name) and elt.id == x and not mentions_stream:
+        return True
+    if isinstance(elt, ast.Call) and not mentions_stream:
+        direct = [a for a in list(elt.args) + [k.value for k in elt.keywords] if isinstance(a, ast.Name) and a.id == x]
+        if len(direct) == 1 and len(uses) == 1:
+            return True
+    if not uses and not walrus:
+        return False
+    return None
+
+
+def in_place_edits(facts, call):
+    """Texts of the statements of the called function that change, in place, the parameter that receives the item list."""
+    f = facts.funcs.get(call.name)
+    if f is None:
+        return []
+    params = [a.arg for a in f.args.posonlyargs + f.args.args]
+    held = {p for p, a in zip(params, call.args) if isinstance(a, tuple) and a and a[0] == 'items'}
+    out = []
+    for n in ast.walk(f):
+        tgt = None
+        if isinstance(n, ast.Call) and isinstance(n.func, ast.Attribute) and isinstance(n.func.value, ast.Name) \
+                and n.func.attr in ('pop', 'remove', 'append', 'insert', 'extend', 'clear', 'sort', 'reverse'):
+            tgt = n.func.value.id
+        elif isinstance(n, ast.Delete):
+            for t in n.targets:
+                if isinstance(t, ast.Subscript) and isinstance(t.value, ast.Name):
+                    tgt = t.value.id
+        elif isinstance(n, (ast.Assign, ast.AugAssign)):
+            for t in (n.targets if isinstance(n, ast.Assign) else [n.target]):
+                if isinstance(t, ast.Subscript) and isinstance(t.value, ast.Name):
+                    tgt = t.value.id
+        if tgt in held:
+            out.append(' '.join(unparse(n).split())[:60])
+    return out
 
 
 def stream_names(fn):
@@ -109,32 +199,154 @@ def stream_names(fn):
     return names
 
 
+def same_bytes(v):
+    """bytes(x) / bytearray(x) / memoryview(x) hold the bytes of x."""
+    while v[0] == 'call' and v[1] in ('bytes', 'bytearray', 'memoryview') and len(v[2]) == 1 and not v[3] and not is_const(v[2][0]):
+        v = v[2][0]
+    return v
+
+
 def check_resolve_blobs(rep, facts, rule):
     fn = facts.funcs.get('resolve_blobs')
     if fn is None:
         raise AnalysisError('anchor vanished: resolve_blobs')
-    _, loop, paths = loop_paths(facts, fn)
-    out_name = None
-    for s in fn.body:
-        if isinstance(s, ast.Return) and isinstance(s.value, ast.Name):
-            out_name = s.value.id
-    good = False
+    pre, loop, paths = loop_paths(facts, fn)
+    item = LR.loop_item(loop)
+    if item is None:
+        raise AnalysisError('resolve_blobs: the loop variable that holds the blob ({}) is not understood'.format(unparse(loop.target)))
+    # the buffer that is returned: `return output` after the loop, or in the loop's else clause (the loop ran to its end)
+    from ..pathwalk import always_raises
+    rets = [s for s in list(fn.body) + list(loop.orelse) if isinstance(s, ast.Return)]
+    names = {s.value.id for s in rets if isinstance(s.value, ast.Name)}
+    all_rets = [n for n in ast.walk(fn) if isinstance(n, ast.Return)]
+    if len(names) != 1 or len(rets) != len(all_rets) or any(not isinstance(s.value, ast.Name) for s in rets):
+        raise AnalysisError('resolve_blobs: the returned value is not a local buffer the rule can follow')
+    out_name = next(iter(names))
+    after = fn.body[fn.body.index(loop) + 1:] if loop in fn.body else []
+    data = ('attr', item, 'data')
     n_ok = 0
     for p in paths:
         if p.end == 'raise':
             continue
-        exts = [e for e in p.events if e[0] == 'mcall' and e[2] in ('extend',) and e[1] in (('lv', out_name), ('name', out_name))]
-        n_ok += 1
-        good = len(exts) == 1 and exts[0][3][0] == ('attr', ('item', loop.target.id), 'data')
-        if not good:
-            break
-    it_ok = isinstance(loop.iter, ast.Name) and loop.iter.id == fn.args.args[0].arg
-    rep.check(good and it_ok and n_ok == 1, rule, 'resolve_blobs: output.extend(item.data) once per item, in order',
+        if p.end == 'break' and after and always_raises(after):
+            continue        # the loop is left early and what follows it raises: no output on this path
+        if p.end == 'break':
+            raise AnalysisError('resolve_blobs: the item loop is left early (break) on the path [{}]: the items after it are not emitted by this loop'.format(p.cond_text()[-80:]))
+        adds, other = [], None
+        for e in p.events:
+            if e[0] == 'mcall' and e[1] in (('lv', out_name), ('name', out_name)):
+                if e[2] == 'extend' and len(e[3]) == 1 and not e[4]:
+                    adds.append(same_bytes(e[3][0]))
+                else:
+                    other = e
+            elif e[0] == 'aug' and e[1] == out_name:
+                if e[2] == '+':
+                    adds.append(same_bytes(e[3]))
+                else:
+                    other = e
+            elif e[0] in ('setitem', 'augstore', 'delete') and IS_contains(e[1], ('lv', out_name)):
+                other = e
+        inst = 'resolve_blobs [{}]'.format(p.cond_text()[-60:])
+        if other is not None:
+            raise AnalysisError('resolve_blobs: the output buffer is changed in a way the rule does not follow ({})'.format(show(other[1])[:60]))
+        if adds == [data]:
+            n_ok += 1
+            rep.ok(rule, inst + ': output.extend(item.data) once, in order')
+            continue
+        if not adds:
+            # nothing is emitted for this item: right exactly when the path knows its data is empty
+            empty = any((t == data and not pol) or (t == ('un', 'not', data) and pol) for t, pol, _ in p.conds)
+            f = p.facts.get(('call', 'len', (data,), ()))
+            empty = empty or bool(f and f['eq'] is not None and f['eq'][1] == 0)
+            if empty:
+                rep.ok(rule, inst + ': an empty blob contributes nothing')
+                continue
+            # the conditions under which the item is skipped must be ones the rule reads: class tests and tests of the data itself
+            class L:
+                terms = {t: 1 for t, pol, _ in p.conds if isinstance(t, tuple)}
+            understood = all(LR.class_test(t) or LR.contains_value(t, data) for t, pol, _ in p.conds) and not LR.opaque_atoms(facts, L) \
+                and not any(LR.IS_havoc(t) for t, pol, _ in p.conds)
+        else:
+            class L:
+                terms = {a: 1 for a in adds}
+            understood = not LR.opaque_atoms(facts, L)
+        if not understood:
+            raise AnalysisError('resolve_blobs: what the path [{}] adds to the output ({}) is not followed back to the blob\'s data'.format(
+                p.cond_text()[-80:], ', '.join(show(a)[:40] for a in adds) or 'nothing'))
+        rep.fail(Finding(rule, 'resolve_blobs', loop, 'the output is not the in-order concatenation of every blob\'s data: on the path [{}] an item contributes {}'.format(
+            p.cond_text()[-80:], ', '.join(show(a)[:40] for a in adds) or 'nothing'), line=loop.lineno), instance='resolve_blobs: output.extend(item.data) once per item, in order')
+    src = LR.in_order_source(loop.iter)
+    it_ok = isinstance(src, ast.Name) and src.id == fn.args.args[0].arg
+    if not it_ok:
+        if not any(isinstance(n, ast.Call) and dotted(n.func) in ('reversed', 'sorted', 'set', 'frozenset') for n in ast.walk(loop.iter)) \
+                and not any(isinstance(n, ast.Slice) for n in ast.walk(loop.iter)):
+            raise AnalysisError('resolve_blobs: the loop runs over `{}`, which is not followed back to the input list'.format(unparse(loop.iter)[:60]))
+    rep.check(it_ok and n_ok >= 1, rule, 'resolve_blobs: every item of the input list, in order',
               lambda: Finding(rule, 'resolve_blobs', loop, 'the output is not the in-order concatenation of every blob\'s data', line=loop.lineno))
-    init = [s for s in fn.body if isinstance(s, ast.Assign) and isinstance(s.targets[0], ast.Name) and s.targets[0].id == out_name]
-    empty = len(init) == 1 and isinstance(init[0].value, ast.Call) and dotted(init[0].value.func) in ('bytearray', 'bytes') and not init[0].value.args
+    # the buffer starts empty
+    init = None
+    for st in pre:
+        init = st.env.get(out_name)
+    empty = init is not None and ((init[0] == 'call' and init[1] in ('bytearray', 'bytes') and not init[3]
+                                   and (not init[2] or (len(init[2]) == 1 and is_const(init[2][0]) and init[2][0][1] in (b'', 0))))
+                                  or (is_const(init) and init[1] == b''))
+    if not empty and not (init is not None and ((is_const(init) and isinstance(init[1], bytes)) or
+                                                (init[0] == 'call' and init[1] in ('bytearray', 'bytes') and len(init[2]) == 1 and is_const(init[2][0])))):
+        raise AnalysisError('resolve_blobs: the initial value of the output buffer ({}) is not understood'.format(show(init)[:60] if init else 'none'))
+    inits = [s for s in fn.body if isinstance(s, ast.Assign) and isinstance(s.targets[0], ast.Name) and s.targets[0].id == out_name]
     rep.check(empty, rule, 'resolve_blobs: output starts empty',
-              lambda: Finding(rule, 'resolve_blobs', init[0] if init else fn, 'the output buffer does not start empty', line=fn.lineno))
+              lambda: Finding(rule, 'resolve_blobs', inits[0] if inits else fn, 'the output buffer does not start empty', line=fn.lineno))
+
+
+def IS_contains(v, x):
+    return LR.contains_value(v, x)
+
+
+def immfields(facts, val):
+    """{constructor parameter: argument value} of a ('new', cls, args, kwargs) value."""
+    from ..immsites import ctor_fields
+    return ctor_fields(facts, val)
+
+
+def zero_run(data):
+    """(is the byte zero?, count) for a value that is a run of one byte value: b'\\x00' * n, n * b'\\x00', bytes(n), bytearray(n);
+    None when the value is not understood as such a run."""
+    if data[0] == 'bin' and data[1] == '*':
+        for a, b in ((data[2], data[3]), (data[3], data[2])):
+            if is_const(a) and isinstance(a[1], (bytes, bytearray)) and len(a[1]) == 1:
+                return a[1] == b'\x00', b
+        return None
+    if data[0] == 'call' and data[1] in ('bytes', 'bytearray') and len(data[2]) == 1 and not data[3]:
+        n = data[2][0]
+        if is_const(n):
+            return (True, n) if isinstance(n[1], int) and not isinstance(n[1], bool) else None
+        if n[0] in ('list', 'tuple', 'comp', 'dict', 'accum'):
+            return None
+        return True, n            # bytes(n) with n a number: n zero bytes
+    return None
+
+
+def inline_padding_form(pa, cnt):
+    """Normal form of a padding expression written out in resolve_aligns (N = <item>.alignment, p = the running offset)."""
+    n_expr = show(('attr', pa.item, 'alignment'))
+    try:
+        expr = ast.parse(show(cnt), mode='eval').body
+    except SyntaxError:
+        raise AnalysisError('resolve_aligns: the padding count {} is not understood'.format(show(cnt)[:80]))
+    out, ok = {}, True
+    for case, want in (('zero', alignform.F()), ('nonzero', alignform.F(a=-1, b=1))):
+        try:
+            got = alignform.Eval(None, n_expr, pa.pos_var, case).ev(expr, {})
+        except alignform.MaskNotModulo as e:
+            out[case] = 'bit-mask `{}`: equals the residue modulo N only when N is a power of two'.format(e)
+            ok = False
+            continue
+        except alignform.Undecided as e:
+            raise AnalysisError('resolve_aligns: the padding count {} is neither resolution_size(offset) nor inside the linear-modular fragment: {}'.format(show(cnt)[:60], e))
+        out[case] = repr(got)
+        if got.key() != want.key():
+            ok = False
+    return ok, out
 
 
 def check_align(rep, facts, rule):
@@ -154,25 +366,54 @@ def check_align(rep, facts, rule):
     # resolve_aligns: padding computed at the item-start position and emitted as that many zero bytes
     pa = LR.pass_analysis(facts, 'resolve_aligns')
     n = 0
+    from ..labelrules import plain_offset_value
+    p_param = [a.arg for a in m.args.args][1] if len(m.args.args) == 2 else None
     for r in pa.rows:
         for val, node in r['app_values']:
             if val[0] == 'new' and val[1] == 'Blob':
                 n += 1
-                data = val[2][1] if len(val[2]) > 1 else dict(val[3]).get('data')
-                good = False
-                cnt = None
-                if data is not None and data[0] == 'bin' and data[1] == '*':
-                    for a, b in ((data[2], data[3]), (data[3], data[2])):
-                        if is_const(a) and a[1] == b'\x00':
-                            cnt = b
-                            good = True
+                fields = immfields(facts, val)
+                data = fields.get(dict(facts.full_attr_order('Blob')).get('data') or 'data')      # the constructor parameter stored as .data
+                run = zero_run(data) if data is not None else None
+                if run is None:
+                    raise AnalysisError('resolve_aligns: the bytes of the emitted padding ({}) are not understood as a run of one byte value'.format(show(data)[:60] if data else '?'))
+                good, cnt = run
                 rep.check(good, rule + '.zeros', 'resolve_aligns pads with b"\\x00" * padding',
                           lambda node=node: Finding(rule + '.zeros', 'resolve_aligns', node, 'alignment padding is not a run of zero bytes', line=node.lineno))
-                at_start = (cnt is not None and cnt[0] == 'mcall' and cnt[2] == 'resolution_size' and cnt[1] == pa.item
-                            and cnt[3] == (('lv', pa.pos_var),))
-                rep.check(at_start, rule + '.at-start', 'padding = item.resolution_size(offset at which the align item starts)',
-                          lambda node=node, cnt=cnt: Finding(rule + '.at-start', 'resolve_aligns', node,
-                                                             'padding {} is not resolution_size of the running offset at the align item'.format(show(cnt) if cnt else '?'), line=node.lineno))
+                # the count: resolution_size of the running offset at the align item (any call spelling), or the formula written out
+                pos = None
+                if cnt[0] == 'mcall' and cnt[2] == 'resolution_size':
+                    if cnt[1] == pa.item and len(cnt[3]) == 1 and not cnt[4]:
+                        pos = cnt[3][0]
+                    elif cnt[1] == pa.item and not cnt[3] and len(cnt[4]) == 1 and cnt[4][0][0] == p_param:
+                        pos = cnt[4][0][1]
+                    elif cnt[1][0] == 'name' and cnt[1][1] in facts.classes and facts.is_subclass(cnt[1][1], 'Align') and len(cnt[3]) == 2 and cnt[3][0] == pa.item and not cnt[4]:
+                        pos = cnt[3][1]
+                if pos is not None:
+                    pass_params = {a.arg for a in pa.loop_fn.args.args + pa.loop_fn.args.kwonlyargs}
+
+                    def understood(v):
+                        # locals, parameters of the pass and integers combined by + - *: a value the rule can compare with the offset
+                        if is_const(v):
+                            return isinstance(v[1], int)
+                        if v[0] == 'lv' or (v[0] == 'name' and len(v) == 2 and v[1] in pass_params):
+                            return True
+                        if v[0] == 'bin' and v[1] in ('+', '-', '*'):
+                            return understood(v[2]) and understood(v[3])
+                        return False
+                    if pos != ('lv', pa.pos_var) and not plain_offset_value(pos) and not understood(pos):
+                        raise AnalysisError('resolve_aligns: the offset handed to resolution_size ({}) is not followed back to the running offset'.format(show(pos)[:60]))
+                    rep.check(pos == ('lv', pa.pos_var), rule + '.at-start', 'padding = item.resolution_size(offset at which the align item starts)',
+                              lambda node=node, cnt=cnt: Finding(rule + '.at-start', 'resolve_aligns', node,
+                                                                 'padding {} is not resolution_size of the running offset at the align item'.format(show(cnt)), line=node.lineno))
+                    continue
+                # the padding written out in the pass itself: the same normal form, with N = item.alignment and p = the running offset
+                ok2, forms2 = inline_padding_form(pa, cnt)
+                rep.sample({'inline padding': forms2})
+                rep.check(ok2, rule + '.minimal', 'inline padding == 0 if p % N == 0 else N - p % N',
+                          lambda node=node, cnt=cnt, forms2=forms2: Finding(rule + '.minimal', 'resolve_aligns', node,
+                                                                           'padding {} is not the least non-negative value making the running offset a multiple of the alignment: {}'.format(
+                                                                               show(cnt)[:80], forms2), line=node.lineno))
     rep.count('align emission sites', n)
 
 
@@ -186,28 +427,37 @@ def run(repo, tier):
                  'Blob reaches resolve_blobs, whose output is the in-order concatenation.  Align.resolution_size is normalised over '
                  'p = qN + r to 0 / N - r.')
     rep.trusted_base = ['CPython ast', 'bbverif.pathwalk / layout size algebra', 'struct standard sizes (oracle table)']
-    check_pipeline_shape(rep, facts, 'R9.pipeline')
+    # every rule is attempted: a no-verdict in one of them is deferred, so it cannot mask a violation another one establishes
+    rep.attempt(check_pipeline_shape, rep, facts, 'R9.pipeline')
     from .. import labelrules as LB
-    LB.check_position_frozen(rep, facts, 'R9.align.frozen')
+    rep.attempt(LB.check_position_frozen, rep, facts, 'R9.align.frozen')
+    movers = rep.attempt(LB.label_writing_passes, facts)
     for compress in (False, True):
-        steps = LR.class_flow(facts, compress)
+        steps = rep.attempt(LR.class_flow, facts, compress)
+        if steps is None:
+            continue
         for name, node, inc, out in steps:
-            pa = LR.pass_analysis(facts, name, frozenset(inc))
-            LR.check_conservation(rep, pa, 'R9.bytes', name in LR.LABEL_PASSES_EXPECTED)
-            LR.check_order_only(rep, pa, 'R9.order')
-            LR.check_shared_buffers(rep, facts, pa, 'R9.own-payload')
-            rep.count('pass analyses')
+            def one(name=name, inc=inc):
+                pa = LR.pass_analysis(facts, name, frozenset(inc))
+                LR.check_conservation(rep, pa, 'R9.bytes', movers is None or name in movers)
+                LR.check_order_only(rep, pa, 'R9.order')
+                LR.check_shared_buffers(rep, facts, pa, 'R9.own-payload')
+                rep.count('pass analyses')
+            rep.attempt(one)
         final = steps[-1][3] if steps else set()
         rep.check(final == {'Blob'}, 'R9.class-flow', 'compress={}: only Blob items reach resolve_blobs'.format(compress),
                   lambda final=final: Finding('R9.class-flow', 'assemble', 'compress={}'.format(compress),
                                               'item kinds {} reach resolve_blobs unconverted'.format(sorted(final - {'Blob'})),
                                               line=facts.funcs['assemble'].lineno))
         rep.sample({'compress': compress, 'class_flow': [(n, sorted(i - o), sorted(o - i)) for n, _, i, o in steps]})
-    check_resolve_blobs(rep, facts, 'R9.concat')
-    check_align(rep, facts, 'R9.align')
-    pa = LR.pass_analysis(facts, 'transform_pseudo_instructions')
-    for r in pa.rows[:6]:
-        rep.sample(LR.describe_row(r))
+    rep.attempt(check_resolve_blobs, rep, facts, 'R9.concat')
+    rep.attempt(check_align, rep, facts, 'R9.align')
+
+    def samples():
+        pa = LR.pass_analysis(facts, 'transform_pseudo_instructions')
+        for r in pa.rows[:6]:
+            rep.sample(LR.describe_row(r))
+    rep.attempt(samples)
     rep.floor('pipeline steps', 12)
     rep.floor('pass paths accounted', 150)
     rep.floor('align emission sites', 1)
